@@ -33,9 +33,7 @@ def syncedFile (ops : List FsOp) (i : Nat) : Option (List Cell) :=
 def syncedEntries (c : Cfg) (ops : List FsOp) (i : Nat) : List Op :=
   match syncedFile ops i with
   | none => []
-  | some f => match loadFile c.r f with
-    | .ok es => es
-    | _ => []
+  | some f => loadEntries c.r f
 
 /-- Clause 1: the next load returns a prefix of the written entries (a consistent earlier state)
     that contains everything durably synced; an unreadable file would load as the empty state. -/
@@ -94,8 +92,13 @@ theorem syncedFile_session (nl : Nat) (evs : List Ev) (i : Nat) :
   · rfl
   · rename_i h; exact sessionDurable_is_synced_file nl evs i (by omega)
 
-theorem loadFile_nil_good (c : RCfg) (hc : GoodR c) : loadFile c [] = .ok [] := by
-  simp [loadFile, headerOf, hc.2.2]
+theorem loadEntries_nil (c : RCfg) : loadEntries c [] = [] := by
+  cases hs : c.shortFileIsEmpty <;> simp [loadEntries, loadFile, headerOf, hs]
+
+theorem recover_eq_loadEntries (c : Cfg) (d : Disk) (g : List Cell) (h : d.main = some g) :
+    recover c d = Index.replay [] (loadEntries c.r g) := by
+  simp only [recover, mainIndex, h, loadEntries]
+  cases loadFile c.r g <;> simp [Index.replay]
 
 theorem sessionDurable_shape (nl : Nat) (evs : List Ev) (i : Nat) :
     sessionDurable nl evs i = [] ∨ ∃ t, sessionDurable nl evs i = fileCells nl (evBlocks (evs.take t)) := by
@@ -117,12 +120,11 @@ theorem durable_entries_prefix (c : Cfg) (hc : GoodR c.r) (nl : Nat) (evs : List
   · simp [h0]
   · simp only [h0, if_false]
     rcases sessionDurable_shape nl evs i with h | ⟨t, h⟩
-    · rw [h, loadFile_nil_good c.r hc]; exact List.nil_prefix
+    · rw [h]; simp only [loadEntries_nil]; exact List.nil_prefix
     · rw [h] at hdg ⊢
       have hwft : ∀ b ∈ evBlocks (evs.take t), b.WF :=
         fun b hb => hwf b ((evBlocks_take_prefix evs t).subset hb)
-      rw [loadFile_clean c.r nl _ hwft]
-      simp only
+      simp only [loadEntries, loadFile_clean c.r nl _ hwft]
       have hlen := hm _ (evBlocks_take_prefix evs t) hdg
       have e : evBlocks (evs.take t) = (evBlocks evs).take (evBlocks (evs.take t)).length :=
         List.prefix_iff_eq_take.mp (evBlocks_take_prefix evs t)
@@ -175,7 +177,7 @@ theorem recover_total_prefix (c : Cfg) (hc : GoodR c.r) : Recovers c := by
         refine List.IsPrefix.trans ?_ hwr
         conv => rhs; rw [← hr, entsOf_append]
         exact List.prefix_append _ _
-      · simp [recover, mainIndex, hg, hload]
+      · rw [recover_eq_loadEntries c _ g hg, hload]
 
 /-- **Writes after a recovery are recoverable (repaired reader and repaired open).**  With an
     `openExistingFile` that cuts a torn tail (and recreates a file whose header never made it to
@@ -235,5 +237,111 @@ theorem append_after_recovery (c : Cfg) (hc : GoodR c.r) (ht : c.truncatesTornTa
 /-- C02 holds for the repaired reader and the repaired open. -/
 theorem holds_of_repaired (c : Cfg) (hc : GoodR c.r) (ht : c.truncatesTornTail = true) : Holds c :=
   ⟨recover_total_prefix c hc, append_after_recovery c hc ht⟩
+
+/-! ### The code as it is: closed witnesses -/
+
+/-- encoder of the witnesses: two payload bytes per block -/
+def mk2 : Mk := fun es => { hdr := [2, 0, 0, 0, 0, 0, 0, 0, 0, 0, 0, 0, 0, 0, 0, 0], plen := 2, ents := es }
+
+theorem mk2_ok : MkOk mk2 := by
+  intro es _
+  exact ⟨⟨rfl, rfl, by show 0 < 2; omega⟩, rfl⟩
+
+theorem mk2_wf (es : List Op) : (mk2 es).WF := ⟨rfl, rfl, by show 0 < 2; omega⟩
+
+/-- **A torn payload is a load error** (for any reader that does not map the short read to EOF):
+    whole blocks followed by a block cut inside its payload do not load at all. -/
+theorem torn_block_load_error (c : RCfg) (h : c.tornDataIsEOF = false) (nl : Nat) (bs : List Block)
+    (hwf : ∀ b ∈ bs, b.WF) (b : Block) (hb : b.WF) (r : Nat) (h1 : 16 < r) (h2 : r < 16 + b.plen) :
+    loadFile c (fileCells nl bs ++ (blockCells b).take r) = .errLoad := by
+  rw [loadFile_base_tail c nl bs hwf b hb r h2]
+  have : tailStop r = .torn := by
+    unfold tailStop
+    have a : ¬ r = 0 := by omega
+    have b' : ¬ r < 16 := by omega
+    have c' : ¬ r = 16 := by omega
+    simp [a, b', c']
+  simp [this, stopOk, h]
+
+/-- … and with the current `Load` (any error ⇒ return) the swamp then comes back empty although
+    a block had been synced.  History: write k1 (flushed), Sync, write k2 (flushed); crash one
+    byte into the payload of the second block. -/
+theorem not_recovers_of_torn_error (c : Cfg) (h : c.r.tornDataIsEOF = false) (hs : c.syncFsyncs = true) :
+    ¬ Recovers c := by
+  intro hr
+  let b1 := mk2 [Op.put 1 1]
+  let b2 := mk2 [Op.put 2 2]
+  let acts : List Act := [.w [(Op.put 1 1, 200)], .sync, .w [(Op.put 2 2, 200)]]
+  have hops : (runActs c mk2 0 100 acts).ops = sessionOps 0 [.blk b1, .hdr, .sync, .blk b2] := by
+    simp [acts, runActs, Run.step, cWrite, cSync, ensureW, openWriter, Disk.get, addManyW, addW, flushW, syncW,
+      createOps, hs, mk2, Disk.applyAll, Disk.apply, Disk.set, splice, List.drop_of_length_le, sessionOps, evOps, b1, b2]
+  have hwf1 : ∀ b ∈ [b1], b.WF := by intro b hb; simp at hb; subst hb; exact mk2_wf _
+  have hexp : sessionOps 0 [.blk b1, .hdr, .sync, .blk b2] =
+      sessionOps 0 [.blk b1, .hdr, .sync] ++
+        [.write .main 82 (hdrCells b2), .write .main 98 (payCells b2), .write .main 0 (fhCells 0)] := by
+    simp [sessionOps, evOps, createOps, b1, mk2]
+  have hlen7 : (sessionOps 0 [.blk b1, .hdr, .sync]).length = 7 := by simp [sessionOps, evOps, createOps]
+  have hls : lastSyncIdx (sessionOps 0 [.blk b1, .hdr, .sync, .blk b2]) 8 = 7 := by
+    simp [sessionOps, evOps, createOps, lastSyncIdx, FsOp.isSync]
+  obtain ⟨es, hpre, hsyn, hrec⟩ := hr mk2 mk2_ok 0 100 acts 8 8 1 (by
+    rw [hops]; exact ⟨by simp [sessionOps, evOps, createOps], by rw [hls]; omega, by omega⟩)
+  rw [hops] at hsyn hrec
+  -- what was synced: the first block
+  have hsf : syncedFile (sessionOps 0 [.blk b1, .hdr, .sync, .blk b2]) 8 = some (fileCells 0 [b1]) := by
+    simp only [syncedFile, hls]
+    rw [hexp, List.take_left' hlen7, applyAll_sessionOps]
+    simp [evBlocks]
+  have hse : syncedEntries c (sessionOps 0 [.blk b1, .hdr, .sync, .blk b2]) 8 = [Op.put 1 1] := by
+    simp only [syncedEntries, hsf, loadEntries, loadFile_clean c.r 0 [b1] hwf1]
+    simp [entsOf, b1, mk2]
+  rw [hse] at hsyn
+  -- the image: first block whole, second cut one byte into its payload
+  have himg : (afterLoad c (lossyImageAt {} (sessionOps 0 [.blk b1, .hdr, .sync, .blk b2]) 8 8 1)).main =
+      some (fileCells 0 [b1] ++ (blockCells b2).take 17) := by
+    have h17 : (blockCells b2).take 17 = hdrCells b2 ++ (payCells b2).take 1 := by
+      rw [take_blockCells_ge _ 17 (by omega)]
+    have htake : (sessionOps 0 [.blk b1, .hdr, .sync, .blk b2]).take 8 =
+        sessionOps 0 [.blk b1, .hdr, .sync] ++ [.write .main 82 (hdrCells b2)] := by
+      rw [hexp, List.take_append, hlen7]
+      simp [List.take_of_length_le, hlen7]
+    have hget : (sessionOps 0 [.blk b1, .hdr, .sync, .blk b2])[8]? = some (.write .main 98 (payCells b2)) := by
+      rw [hexp, List.getElem?_append_right (by omega), hlen7]; rfl
+    have hfl : (fileCells 0 [b1]).length = 82 := by simp [fileCells, render, nmCells, b1, mk2]
+    have htemp : (lossyImageAt {} (sessionOps 0 [.blk b1, .hdr, .sync, .blk b2]) 8 8 1).temp = none := by
+      simp only [lossyImageAt, Nat.le_refl, if_true]
+      exact imageAt_onlyMain_temp _ (sessionOps_onlyMain _ _) 8 1
+    rw [afterLoad_of_no_temp c _ htemp]
+    have d7 : ({} : Disk).applyAll (sessionOps 0 [.blk b1, .hdr, .sync]) =
+        { main := some (fileCells 0 [b1]), temp := none } := by
+      rw [applyAll_sessionOps]; simp [evBlocks]
+    have d8 : ({ main := some (fileCells 0 [b1]), temp := none } : Disk).apply (.write .main 82 (hdrCells b2)) =
+        { main := some (fileCells 0 [b1] ++ hdrCells b2), temp := none } := by
+      rw [apply_write_main _ (fileCells 0 [b1]) rfl, ← hfl, splice_end]
+    have d9 : ({ main := some (fileCells 0 [b1] ++ hdrCells b2), temp := none } : Disk).apply
+          (.write .main 98 ((payCells b2).take 1)) =
+        { main := some (fileCells 0 [b1] ++ hdrCells b2 ++ (payCells b2).take 1), temp := none } := by
+      have h98 : 98 = (fileCells 0 [b1] ++ hdrCells b2).length := by simp [hfl]
+      rw [apply_write_main _ (fileCells 0 [b1] ++ hdrCells b2) rfl, h98, splice_end]
+    simp only [lossyImageAt, Nat.le_refl, if_true, imageAt, hget, htake, Disk.applyAll_append, d7,
+      Disk.applyAll_cons, Disk.applyAll_nil, Disk.applyTorn, d8, d9, h17, List.append_assoc]
+  have hload := torn_block_load_error c.r h 0 [b1] hwf1 b2 (mk2_wf _) 17 (by omega) (by show 17 < 16 + 2; omega)
+  have hrec0 : recover c (afterLoad c (lossyImageAt {} (sessionOps 0 [.blk b1, .hdr, .sync, .blk b2]) 8 8 1)) = [] := by
+    simp [recover, mainIndex, himg, hload]
+  rw [hrec0] at hrec
+  -- es starts with `put 1 1` and has at most one more put: its replay is not empty
+  obtain ⟨r, hr'⟩ := hsyn
+  subst hr'
+  have hw : written acts = [Op.put 1 1, Op.put 2 2] := by simp [acts, written]
+  rw [hw] at hpre
+  have : r = [] ∨ r = [Op.put 2 2] := by
+    have h2 : r <+: [Op.put 2 2] := by simpa using hpre
+    rcases r with _ | ⟨x, t⟩
+    · exact Or.inl rfl
+    · right
+      obtain ⟨u, hu⟩ := h2
+      simp at hu
+      obtain ⟨rfl, ht, _⟩ := hu
+      simp [ht]
+  rcases this with rfl | rfl <;> simp [Index.replay, Index.apply, Index.put, Index.del] at hrec
 
 end Hv.C02
